@@ -41,7 +41,7 @@ Definition step_check (p : pair) (o : sop) : bool :=
     (let '(p', r) := step p o in
      agree p'
      && sst_eqb (src_st p') (spec_next o (src_st p))
-     && (if legal o (src_st p) then sres_eqb r Ok else sres_eqb r Refused && pair_eqb p' p)).
+     && (if legal o (src_st p) then sres_eqb r Ok else sres_eqb r (refusal o) && pair_eqb p' p)).
 
 Lemma step_check_all : forallb (fun p => forallb (step_check p) all_ops) all_pairs = true.
 Proof. vm_compute. reflexivity. Qed.
@@ -60,7 +60,7 @@ Lemma step_facts : forall p o, agree p = true ->
   agree (fst (step p o)) = true /\
   src_st (fst (step p o)) = spec_next o (src_st p) /\
   (legal o (src_st p) = true -> snd (step p o) = Ok) /\
-  (legal o (src_st p) = false -> step p o = (p, Refused)).
+  (legal o (src_st p) = false -> step p o = (p, refusal o)).
 Proof.
   intros p o Ha. pose proof (step_check_holds p o) as H. unfold step_check in H.
   rewrite Ha in H. simpl implb in H. destruct (step p o) as [p' r]. simpl fst; simpl snd.
@@ -68,7 +68,7 @@ Proof.
   apply sst_eqb_eq in H2. repeat split; try assumption.
   - intro Hl. rewrite Hl in H3. destruct r; simpl in H3; try discriminate; reflexivity.
   - intro Hl. rewrite Hl in H3. apply andb_true_iff in H3. destruct H3 as [H3 H4].
-    apply pair_eqb_eq in H4. subst p'. destruct r; simpl in H3; try discriminate; reflexivity.
+    apply pair_eqb_eq in H4. subst p'. destruct r, o; simpl in H3; try discriminate; reflexivity.
 Qed.
 
 Lemma agree_same_state : forall p, agree p = true -> src_st p = snk_st p /\ src_rtp p = snk_rtp p.
@@ -114,7 +114,7 @@ Qed.
    end; a legal one is accepted.  For every history. *)
 Theorem illegal_refused_unchanged : forall ops o,
   let p := fst (run p_init ops) in
-  legal o (src_st p) = false -> step p o = (p, Refused).
+  legal o (src_st p) = false -> step p o = (p, refusal o).
 Proof.
   intros ops o p Hl. exact (proj2 (proj2 (proj2 (step_facts p o (run_agree ops p_init eq_refl)))) Hl).
 Qed.
